@@ -17,7 +17,7 @@ const SALT: [u8; 32] = [0x51; 32];
 const UNKNOWN: [u8; 32] = [0x99; 32];
 const DEST: &[u8] = b"0xDestinationOnRemote";
 
-// holders: 0 U1, 1 U2, 2 app, 3 ITS, 4 gas service
+// holders: 0 U1, 1 U2, 2 app, 3 ITS, 4 gas service, 5 an account-type (G...) address
 // tokens: 0 T1 (service-deployed), 1 T2 (canonical asset), 2 gas token
 
 #[derive(Clone, Hash)]
@@ -27,7 +27,7 @@ struct Model {
     t2: bool,
     trusted: bool,
     /// tokens: 0 T1, 1 T2, 2 gas token, 3 T3 (second service-deployed token), 4 T4 (second canonical)
-    bal: [[i128; 5]; 5],
+    bal: [[i128; 6]; 5],
     locked: [i128; 5],
     released: [i128; 5],
     minted: [i128; 5],
@@ -57,7 +57,7 @@ enum Act {
     /// token: 0 T1, 1 T2, 2 unknown id; gas: 0 = 1 unit, 1 = more than the sender has, 2 = zero, 3 = negative
     /// gas_tok: which token pays the gas: 2 = the gas token, 1 = T2, 0 = T1 (aliasing with the transferred token)
     Out { token: u8, sender: usize, amt: Amt, trusted_dest: bool, data: bool, gas: u8, auth: bool, gas_tok: u8 },
-    /// recipient: 0 = U2, 1 = app with data, 2 = the token service itself
+    /// recipient: 0 = U2, 1 = app with data, 2 = the token service itself, 3 = an account-type address
     In { token: u8, recipient: u8, amt: Amt },
     /// the last successful inbound delivery is approved and delivered again, unchanged
     ReplayLastInbound,
@@ -126,14 +126,18 @@ impl Scenario for C05 {
         }
         let t4_id = canonical_token_id("stellar", &iw.sc(&iw.assets[1]));
         iw.mint_asset(&iw.assets[1], &iw.users[0], 20);
-        let holders = vec![iw.users[0].clone(), iw.users[1].clone(), iw.app.clone(), iw.its.clone(), iw.gas.clone()];
+        let account = addr_from_sc(
+            &iw.w,
+            &soroban_sdk::xdr::ScAddress::Account(soroban_sdk::xdr::AccountId(soroban_sdk::xdr::PublicKey::PublicKeyTypeEd25519(soroban_sdk::xdr::Uint256([7; 32])))),
+        );
+        let holders = vec![iw.users[0].clone(), iw.users[1].clone(), iw.app.clone(), iw.its.clone(), iw.gas.clone(), account];
         let ctx = Ctx { iw, t1_id, t1, t2_id, t3_id, t3, t4_id, holders };
         let mut m = Model {
             advances: 0,
             t1: false,
             t2: false,
             trusted: true,
-            bal: [[0; 5], [20, 5, 0, 0, 0], [3, 1, 0, 0, 0], [0, 20, 0, 0, 0], [20, 0, 0, 0, 0]],
+            bal: [[0; 6], [20, 5, 0, 0, 0, 0], [3, 1, 0, 0, 0, 0], [0, 20, 0, 0, 0, 0], [20, 0, 0, 0, 0, 0]],
             locked: [0; 5],
             released: [0; 5],
             minted: [0; 5],
@@ -187,11 +191,13 @@ impl Scenario for C05 {
         }
         if m.inbound < if self.thorough { 4 } else { 3 } {
             for token in [0u8, 1, 3, 4] {
-                for recipient in 0..3u8 {
+                for recipient in 0..4u8 {
                     for amt in [Amt::One, Amt::All, Amt::AllPlus1, Amt::Huge] {
                         if (token == 0 || token == 3) && amt != Amt::One && amt != Amt::Huge { continue; }
                         if token >= 3 && (recipient == 1 || amt == Amt::Huge) { continue; }
                         if recipient == 2 && (amt != Amt::One || token >= 3) { continue; }
+                        // asset-contract tokens need a trustline for account recipients: service-deployed tokens only
+                        if recipient == 3 && (amt != Amt::One || token != 0) { continue; }
                         v.push(Act::In { token, recipient, amt });
                     }
                 }
@@ -321,7 +327,7 @@ impl Scenario for C05 {
                 out.kind = "inbound-replay";
                 let (token, recipient, x, _with_data) = m.last_in.unwrap();
                 let tid = match token { 0 => ctx.t1_id, 1 => ctx.t2_id, 3 => ctx.t3_id, _ => ctx.t4_id };
-                let (rcpt, data): (&Address, Vec<u8>) = match recipient { 0 => (&iw.users[1], vec![]), 1 => (&iw.app, b"app-data".to_vec()), _ => (&iw.its, vec![]) };
+                let (rcpt, data): (&Address, Vec<u8>) = match recipient { 0 => (&iw.users[1], vec![]), 1 => (&iw.app, b"app-data".to_vec()), 2 => (&iw.its, vec![]), _ => (&ctx.holders[5], vec![]) };
                 let payload = abi_hub(&RHub::ReceiveFromHub {
                     chain: X.as_bytes().to_vec(),
                     msg: RMsg::Transfer { token_id: tid, source_address: b"remote-sender".to_vec(), destination_address: addr_xdr(&iw.sc(rcpt)), amount: x as u128, data },
@@ -345,7 +351,7 @@ impl Scenario for C05 {
                 let native = tix == 0 || tix == 3;
                 let custody = if native { 0 } else { m.bal[tix][3] };
                 let x: i128 = match amt { Amt::One => 1, Amt::All => custody, Amt::AllPlus1 => custody + 1, _ => 1 };
-                let (rcpt, rix, data): (&Address, usize, Vec<u8>) = match recipient { 0 => (&iw.users[1], 1, vec![]), 1 => (&iw.app, 2, b"app-data".to_vec()), _ => (&iw.its, 3, vec![]) };
+                let (rcpt, rix, data): (&Address, usize, Vec<u8>) = match recipient { 0 => (&iw.users[1], 1, vec![]), 1 => (&iw.app, 2, b"app-data".to_vec()), 2 => (&iw.its, 3, vec![]), _ => (&ctx.holders[5], 5, vec![]) };
                 let mut payload = abi_hub(&RHub::ReceiveFromHub {
                     chain: X.as_bytes().to_vec(),
                     msg: RMsg::Transfer { token_id: tid, source_address: b"remote-sender".to_vec(), destination_address: addr_xdr(&iw.sc(rcpt)), amount: x as u128, data: data.clone() },
@@ -424,6 +430,8 @@ impl Scenario for C05 {
             let tok = self.token_addr(ctx, t);
             let mut sum = 0i128;
             for (hix, h) in ctx.holders.iter().enumerate() {
+                // an account without a trustline has no balance in an asset contract at all
+                if hix == 5 && t != 0 && t != 3 { continue; }
                 let q = iw.balance(tok, h);
                 out.expect(q == Some(m.bal[t][hix]), "probe.balance", || format!("token {} holder {}: {:?} vs model {}", t, hix, q, m.bal[t][hix]));
                 sum += q.unwrap_or(0);
